@@ -1,5 +1,6 @@
 import SurfProofs.Lemmas.SixelEnc
 import SurfProofs.Lemmas.SixelTable
+import SurfProofs.Lemmas.SixelMap
 /-!
 # C12 helper lemmas, part 4: the interpreter on whole bands and on the whole output
 -/
@@ -28,7 +29,8 @@ theorem exec_colorLine {R : List (Nat × RGB)} {q : QImg} {h b c : Nat} {rgb : R
   obtain ⟨hi, hr, hd, hR, hband, hx⟩ := hg
   have htok : ∀ t ∈ encodeLine 0 (lineItems q b c), TokOk t :=
     tokOk_encodeLine 0 _ (lineItems_codes q b c)
-  unfold colorLine
+  unfold colorLine colorLineOf
+  rw [SurfProofs.Lemmas.SixelMap.bandLine_eq]
   rw [exec_append _ _ [36] (by simp [GroundHead, isParamByte]),
     exec_append _ _ _ (groundHead_tokBytes _ htok), exec_select c hc hi hr]
   simp only [Option.bind_some]
@@ -74,7 +76,7 @@ theorem groundHead_colorLines (q : QImg) (b : Nat) (cs : List Nat) :
     GroundHead (cs.flatMap (colorLine q b)) := by
   cases cs with
   | nil => simp [GroundHead]
-  | cons c cs => simp [colorLine, GroundHead, isParamByte]
+  | cons c cs => simp [colorLine, colorLineOf, GroundHead, isParamByte]
 
 open Classical in
 /-- the lines of a list of colours paint exactly the pixels of band `b` whose colour is in the list -/
@@ -121,7 +123,7 @@ theorem exec_band {R : List (Nat × RGB)} {q : QImg} {h b : Nat} (f : Nat → RG
         if y' / 6 = b ∧ x' < q.w ∧ q.get y' x' ∈ cs then some (f (q.get y' x')) else canvasGet st.canvas x' y' := by
   obtain ⟨st1, e1, hg1, ho1, hget1⟩ := exec_colorLines f hb cs hg hcs
   obtain ⟨hi, hr, hd, hR, hband, hx⟩ := hg1
-  unfold encodeBand
+  rw [encodeBand_def]
   rw [exec_append _ _ [45] (by simp [GroundHead, isParamByte]), e1]
   simp only [Option.bind_some]
   rw [exec_nl hi hr]
@@ -130,7 +132,7 @@ theorem exec_band {R : List (Nat × RGB)} {q : QImg} {h b : Nat} (f : Nat → RG
   simp [Good, Idle, h1, h2, h3, hr, hd, hR, hband]
 
 theorem groundHead_band (q : QImg) (b : Nat) (cs : List Nat) : GroundHead (encodeBand q b cs) := by
-  unfold encodeBand
+  rw [encodeBand_def]
   apply groundHead_append (groundHead_colorLines q b cs)
   intro _; simp [GroundHead, isParamByte]
 
@@ -142,7 +144,7 @@ theorem groundHead_bands (q : QImg) (order : Nat → List Nat) (bs : List Nat) :
     simp only [List.flatMap_cons]
     apply groundHead_append (groundHead_band q b _)
     intro h
-    simp [encodeBand] at h
+    simp [encodeBand_def] at h
 
 open Classical in
 /-- bands `b0 … b0+n-1` -/
@@ -410,7 +412,7 @@ theorem tokBytes_lt (ts : List Tok) (h : ∀ t ∈ ts, TokOk t) : ∀ b ∈ tokB
 
 theorem colorLine_lt (q : QImg) (b c : Nat) : ∀ x ∈ colorLine q b c, x < 256 := by
   intro x hx
-  simp only [colorLine, List.mem_append, List.mem_singleton] at hx
+  simp only [colorLine, colorLineOf, SurfProofs.Lemmas.SixelMap.bandLine_eq, List.mem_append, List.mem_singleton] at hx
   rcases hx with ((hx | hx) | hx) | hx
   · omega
   · exact decimal_lt c x hx
@@ -455,7 +457,7 @@ theorem encodeN_lt (pal : List RGB) (q : QImg) (order : Nat → List Nat) :
     · exact decimal_lt _ x hx
   · exact paletteDefFrom_lt pal 0 x hx
   · obtain ⟨b, _, hb⟩ := hx
-    simp only [encodeBand, List.mem_append, List.mem_flatMap, List.mem_singleton] at hb
+    simp only [encodeBand_def, List.mem_append, List.mem_flatMap, List.mem_singleton] at hb
     rcases hb with ⟨c, _, hc⟩ | hb
     · exact colorLine_lt q b c x hc
     · omega
